@@ -21,6 +21,48 @@ var c16Field = map[string]int{
 	"pkt.ProviderTicket.State": 2,
 }
 
+// c16Recv is the receiver name of the function being processed ("a" in the
+// source as it is); c16Pkt the name of its *SidecarPacket parameter. Facts are
+// emitted with the canonical names `a` / `pkt` whatever the source calls them.
+var (
+	c16Recv = "a"
+	c16Pkt  = "pkt"
+)
+
+func c16SetNames(fd *ast.FuncDecl) {
+	c16Recv, c16Pkt = "a", "pkt"
+	if fd == nil {
+		return
+	}
+	if fd.Recv != nil && len(fd.Recv.List) == 1 && len(fd.Recv.List[0].Names) == 1 {
+		c16Recv = fd.Recv.List[0].Names[0].Name
+	}
+	if fd.Type.Params != nil {
+		for _, f := range fd.Type.Params.List {
+			if exprString(f.Type) == "*SidecarPacket" && len(f.Names) == 1 {
+				c16Pkt = f.Names[0].Name
+			}
+		}
+	}
+}
+
+// c16Norm renames receiver and packet parameter to their canonical names.
+func c16Norm(e ast.Expr, extra map[string]ast.Expr) string {
+	sub := map[string]ast.Expr{}
+	for k, v := range extra {
+		sub[k] = v
+	}
+	sub[c16Recv] = ast.NewIdent("a")
+	sub[c16Pkt] = ast.NewIdent("pkt")
+	if c16Recv == "a" {
+		delete(sub, "a")
+	}
+	if c16Pkt == "pkt" {
+		delete(sub, "pkt")
+	}
+	return c16Canon(e, sub, 0)
+}
+
 // c16Atoms flattens a case condition `a == S && b == T && ...` into
 // (field, state value) pairs in evaluation order.
 func c16Atoms(e ast.Expr, states map[string]string) ([]string, bool) {
@@ -35,7 +77,7 @@ func c16Atoms(e ast.Expr, states map[string]string) ([]string, bool) {
 		}
 		if x.Op == token.EQL {
 			for _, pr := range [][2]ast.Expr{{x.X, x.Y}, {x.Y, x.X}} {
-				f, ok := c16Field[exprString(pr[0])]
+				f, ok := c16Field[c16Norm(pr[0], nil)]
 				v, ok2 := states[strings.TrimPrefix(exprString(pr[1]), "sidecar.")]
 				if ok && ok2 {
 					return []string{fmt.Sprintf("(%d, %s)", f, v)}, true
@@ -54,10 +96,10 @@ func c16Calls(stmts []ast.Stmt) []string {
 		ast.Inspect(s, func(n ast.Node) bool {
 			switch x := n.(type) {
 			case *ast.GoStmt:
-				calls = append(calls, "go "+exprString(x.Call.Fun))
+				calls = append(calls, "go "+c16Norm(x.Call.Fun, nil))
 				return false
 			case *ast.CallExpr:
-				fn := exprString(x.Fun)
+				fn := c16Norm(x.Fun, nil)
 				if strings.HasPrefix(fn, "a.cfg.Driver.") || strings.HasPrefix(fn, "a.cfg.MailBox.") {
 					calls = append(calls, strings.TrimPrefix(fn, "a.cfg."))
 				}
@@ -71,6 +113,7 @@ func c16Calls(stmts []ast.Stmt) []string {
 // c16Return finds the last `return &SidecarPacket{...}, nil` of a clause.
 func c16Return(stmts []ast.Stmt, states map[string]string) (res, recv, prov string) {
 	res, recv, prov = "none", "", ""
+	local := c16OnceAssigned(&ast.BlockStmt{List: stmts})
 	for _, s := range stmts {
 		ast.Inspect(s, func(n ast.Node) bool {
 			r, ok := n.(*ast.ReturnStmt)
@@ -95,9 +138,9 @@ func c16Return(stmts []ast.Stmt, states map[string]string) (res, recv, prov stri
 						fail("C16: non-constant CurrentState in return: %s", exprString(kv.Value))
 					}
 				case "ReceiverTicket":
-					recv = exprString(kv.Value)
+					recv = c16Norm(kv.Value, local)
 				case "ProviderTicket":
-					prov = exprString(kv.Value)
+					prov = c16Norm(kv.Value, local)
 				}
 			}
 			return true
@@ -119,6 +162,8 @@ func c16TopSwitch(fd *ast.FuncDecl) *ast.SwitchStmt {
 }
 
 func c16StepTable(l *leanFile, name string, fd *ast.FuncDecl, states map[string]string) {
+	c16SetNames(fd)
+	defer c16SetNames(nil)
 	sw := c16TopSwitch(fd)
 	if sw == nil {
 		fail("C16: tagless switch of %s not found", name)
@@ -127,6 +172,8 @@ func c16StepTable(l *leanFile, name string, fd *ast.FuncDecl, states map[string]
 	}
 	l.p("def %s : List StepCase := [", name)
 	n := len(sw.Body.List)
+	var sigs []string
+	var falls []bool
 	for i, c := range sw.Body.List {
 		cc := c.(*ast.CaseClause)
 		var atoms []string
@@ -153,8 +200,28 @@ func c16StepTable(l *leanFile, name string, fd *ast.FuncDecl, states map[string]
 		}
 		l.p("  { isDefault := %v, atoms := [%s], fall := %v, result := %s, calls := %s, retRecv := %q, retProv := %q }%s",
 			isDefault, strings.Join(atoms, ", "), fall, res, leanStrList(c16Calls(cc.Body)), recv, prov, sep)
+		sa := append([]string{}, atoms...)
+		sort.Strings(sa)
+		sigs = append(sigs, fmt.Sprintf("default=%v;guard=%s;result=%s;calls=%s;recv=%s;prov=%s", isDefault,
+			strings.Join(sa, "&"), res, strings.Join(c16Calls(cc.Body), "+"), recv, prov))
+		falls = append(falls, fall)
 	}
 	l.p("]")
+	// the clauses as a SET of (guard, effect) signatures; a clause that falls
+	// through is described by the clause it falls into
+	var set []string
+	for i, sg := range sigs {
+		if falls[i] && i+1 < len(sigs) {
+			j := i + 1
+			for j+1 < len(sigs) && falls[j] {
+				j++
+			}
+			sg = strings.SplitN(sg, ";result=", 2)[0] + ";falls-into;result=" + strings.SplitN(sigs[j], ";result=", 2)[1]
+		}
+		set = append(set, sg)
+	}
+	sort.Strings(set)
+	l.p("def %sSet : List String := %s", name, leanStrList(set))
 }
 
 // c16LoopFacts extracts the shape of a run loop: whether the finalization
@@ -165,7 +232,10 @@ func c16LoopFacts(l *leanFile, name string, fd *ast.FuncDecl) {
 		fail("C16: %s not found", name)
 		return
 	}
+	c16SetNames(fd)
+	defer c16SetNames(nil)
 	subst := c16FuncSubst(fd)
+	subst[c16Recv] = ast.NewIdent("a")
 	var finClause *ast.CommClause
 	breakSet := map[string]bool{}
 	ast.Inspect(fd.Body, func(n ast.Node) bool {
@@ -181,7 +251,7 @@ func c16LoopFacts(l *leanFile, name string, fd *ast.FuncDecl) {
 			case *ast.ExprStmt:
 				rhs = c.X
 			}
-			if rhs != nil && exprString(rhs) == "<-a.ticketFinalized" {
+			if rhs != nil && strings.HasSuffix(exprString(rhs), ".ticketFinalized") && strings.HasPrefix(exprString(rhs), "<-") {
 				finClause = x
 			}
 		case *ast.CaseClause:
